@@ -44,7 +44,13 @@ RULE = ("random-walk cases: hypergraphs on nodes 0..N-1 (N 2..7, rarely 1), hype
         "add_edges / id gaps / save+load .hgx .json / copy / used-rewired-used, every routine of both anchors called "
         "(matrix, stationary state, 5 densities incl. signed ones in several container kinds, 3 sampled walks; contagion "
         "with all 8 deterministic triples + 3 random ones, string / gapped labels, possibly cut into pieces) and judged "
-        "by sparse oracles built from the hyperedge list; non-trivial = irregular weighted degrees / trajectory changes")
+        "by sparse oracles built from the hyperedge list; non-trivial = irregular weighted degrees / trajectory changes. "
+        "Extension round: per random-walk case 3 matrix powers K**t (t in 0, 1-3, one of 2/4/5/8/13) of the implementation's K "
+        "against the model's kPowMat, the last vector of every density run against the model's closed form s @ K**t, three "
+        "float starts whose total is off by +-5e-6 / +-9e-6 / 1e-9 (np.isclose accepts) or +-1.2e-5 / +-1e-4 / 0.25 / +-1 "
+        "(rejects) against the model's randomWalkDensity, every sampled walk replayed by the model from the uniform draws "
+        "behind np.random.choice (inverse cdf); per contagion run a twin run on a dict subclass with a snapshotting copy(): "
+        "the infected SET after every sweep against the model's infectedSets")
 ASSUMPTIONS = ["nodes are labelled 0..N-1 (random walk) and hyperedges have distinct members (what Hypergraph.get_edges() returns)",
                "N >= 2 for the random-walk clauses (the one-node hypergraph has an all-nan matrix; counted, not judged)",
                "I_0 maps every node of the hypergraph to 0 or 1 (nodes may be missing only when no sweep is run); T >= 1",
@@ -56,6 +62,8 @@ TRUSTED = ["systems above 14 nodes are judged by the property oracles only (floa
            "binary64 rounding of T/rowsum and of s @ K: matrices and densities are compared with the exact Rat model "
            "within 1e-12 (densities additionally exactly, on hgxv.Q object arrays, against the implementation's own K)",
            "np.random.choice / np.random.random honour their contracts (recorded draws are replayed, not re-derived)",
+           "legacy RandomState.choice(n, p=p) consumes one random_sample() and returns cdf.searchsorted(u, side='right') "
+           "(re-checked on every walk by the walku correspondence; draws within 1e-9 of a cdf boundary are skipped)",
            "the pure-Python picture of a history (sets of nodes and hyperedges under add/remove/copy/save+load/"
            "subhypergraph) is what the container operations mean (C01/C08 prove it for the container model)"]
 BUDGET_S = {"quick": 50, "thorough": 800}
@@ -662,6 +670,13 @@ def check_rw(ctx, drv, case):
             break
     lines.append("tm")
     expect.append(("matrix", K.tolist(), TOL))
+    # extension round: the model's matrix powers against powers of the implementation's own K
+    for tpow in sorted({0, rng_local.randint(1, 3), rng_local.choice([2, 4, 5, 8, 13])}):
+        st_p, Kp = call(lambda: np.linalg.matrix_power(K, tpow))
+        if st_p == "ok":
+            ctx.count("kpow_lines")
+            lines.append("kpow %d" % tpow)
+            expect.append(("matrix", Kp.tolist(), TOL * (tpow + 1)))
     # --- stationary state
     st, pi = call(RW.RW_stationary_state, h)
     if st != "ok":
@@ -787,6 +802,35 @@ def check_rw(ctx, drv, case):
                 break
         lines.append("dens %s %d" % (hgxv.enc_list(s), time))
         expect.append(("matrix", out, tol_s))
+        # extension round: the last vector is the start times K ** time (closed form of the model, C18_density_power)
+        lines.append("denst %s %d" % (hgxv.enc_list(s), time))
+        expect.append(("vector", out[time], tol_s * (time + 1)))
+        ctx.count("denst_lines")
+    # --- extension round: starts whose total is not exactly one - the routine's own precondition is np.isclose(sum(s), 1)
+    # (|sum - 1| <= 1e-8 + 1e-5); outside the property's quantifier, so only correspondence with the model's
+    # `randomWalkDensity` (raises <=> `rej`; the accepted ones propagate like every other vector)
+    for delta in rng_local.sample([5e-6, -5e-6, 9e-6, -9e-6, 1e-9, 1.2e-5, -1.2e-5, 1e-4, -1e-4, 1.0, -1.0, 0.25], 3):
+        if ctx.too_many():
+            break
+        w = [rng_local.randint(0, 4) for _ in range(n)]
+        if sum(w) == 0:
+            w[0] = 1
+        sf = [float(Fraction(x, sum(w))) for x in w]
+        sf[rng_local.randrange(n)] += delta
+        kind = rng_local.choice(["f64", "f64", "list_float", "tuple_float"])
+        time = rng_local.randint(0, 4)
+        sx = [Fraction(x) for x in sf]
+        st, out = call(RW.random_walk_density, h, make_start(np, kind, sx), time)
+        ctx.count("rwd_offtotal_" + ("accepted" if st == "ok" else "rejected"))
+        lines.append("rwd %s %d" % (hgxv.enc_list(sx), time))
+        if st != "ok":
+            expect.append(("plain", "rej"))
+        else:
+            try:
+                out = [[frac_of(x) for x in np.asarray(v).reshape(-1)] for v in out]
+                expect.append(("matrix", out, TOL * max(1, sum(abs(x) for x in sx))))
+            except Exception as e:  # noqa: BLE001
+                expect.append(("plain", f"not-a-list-of-vectors: {e}"))
     # --- sampled walks
     for s in range(n):
         if ctx.too_many():
@@ -819,6 +863,23 @@ def check_rw(ctx, drv, case):
         ctx.count("walk_steps", time)
         lines.append("walk %d %s" % (s, hgxv.enc_list(draws)))
         expect.append(("plain", hgxv.enc_list(nodes)))
+        # extension round: the walk as a function of the uniform draws behind np.random.choice (legacy RandomState.choice:
+        # one random_sample() per call, index = cdf.searchsorted(u, side='right')); the model's `walkU` replays them
+        st_u, us = call(lambda: (np.random.seed(npseed + s), [Fraction(float(np.random.random_sample())) for _ in range(time)])[1])
+        if st_u == "ok":
+            safe = True
+            for a, u in zip(nodes, us):
+                acc = Fraction(0)
+                for j in range(n):
+                    acc += Fraction(shared[a][j], d[a]) if 0 <= a < n else 0
+                    if abs(acc - u) < Fraction(1, 10 ** 9):
+                        safe = False          # a draw on a cdf boundary: binary64 cumsum and exact cumsum may differ
+            if safe:
+                ctx.count("walku_lines")
+                lines.append("walku %d %s" % (s, hgxv.enc_list(us)))
+                expect.append(("plain", hgxv.enc_list(nodes)))
+            else:
+                ctx.count("walku_skipped_boundary_draw")
     _ask(ctx, drv, case, lines, expect)
 
 
@@ -896,6 +957,19 @@ class BoundaryDraws:
 
 class _PlainSubclass(dict):
     """a user's own dict subclass as initial condition"""
+
+
+class _SpyDict(dict):
+    """a dict subclass whose copy() returns the same kind of object and records the values at that moment: the routine's
+    `I_old = I_0.copy()`, `I_new = I_old.copy()`, `I_old = I_new.copy()` then leave the state after every sweep in `log`"""
+
+    def __init__(self, items=(), log=None):
+        super().__init__(items)
+        self._log = log if log is not None else []
+
+    def copy(self):
+        self._log.append(list(self.values()))
+        return _SpyDict(list(self.items()), self._log)
 
 
 def real_rate(np, x, rt):
@@ -1034,6 +1108,42 @@ def check_cont(ctx, drv, case):
             hgxv.enc_num(Fraction(float(b))), hgxv.enc_num(Fraction(float(bd))), hgxv.enc_num(Fraction(float(mu))),
             hgxv.enc_list(draws)))
         expect.append(("cont", cnt, out, len(draws)))
+        # extension round: the infected SET after every sweep (not observable through the returned fractions) - a twin
+        # run with the same draws on a dict subclass that takes a snapshot in copy(); compared with the model's
+        # `infectedSets`.  The primary run above stays un-instrumented.
+        spy_log = []
+        try:
+            if case.get("boundary_draws"):
+                np.random.random = BoundaryDraws(np, npseed, (b, bd, mu))
+            np.random.seed(npseed)
+            st2, out2 = call(simplicial_contagion, h, _SpyDict(list(real_I0(np, case, pairs, L).items()), spy_log), Targ,
+                             real_rate(np, b, rt), real_rate(np, bd, rt), real_rate(np, mu, rt))
+        finally:
+            np.random.random = genuine
+        try:
+            same = st2 == "ok" and [float(x) for x in np.asarray(out2).reshape(-1)] == out
+        except Exception:  # noqa: BLE001
+            same = False
+        if not same:
+            ctx.disagree(c2, f"the same run on a dict subclass (copy() returns the subclass) gives {str(out2)[:120]} instead of {out}")
+        else:
+            m = (len(spy_log) - 1) // 2
+            shape_ok = (len(spy_log) % 2 == 1 and 0 <= m <= T - 1 and all(len(x) == len(keys) for x in spy_log)
+                        and all(spy_log[2 * k - 1] == spy_log[2 * k - 2] for k in range(1, m + 1))
+                        and (m == T - 1 or not any(v == 1 for v in spy_log[2 * m])))
+            if not shape_ok:
+                ctx.count("contagion_spy_shape_unexpected")
+            else:
+                sets = [[keys[i] for i, v in enumerate(spy_log[2 * k]) if v == 1] for k in range(1, m + 1)]
+                sets += [[] for _ in range(T - 1 - m)]
+                if [len(x) for x in sets] != cnt[1:]:
+                    ctx.violation(c2, f"numberInf {cnt} is not the size of the infected set after each sweep {sets}")
+                ctx.count("cstates_lines")
+                lines.append("cstates %s %s %s %d %s %s %s %s" % (
+                    hgxv.enc_list(nodes), hgxv.enc_list(keys), hgxv.enc_list(inf0), T,
+                    hgxv.enc_num(Fraction(float(b))), hgxv.enc_num(Fraction(float(bd))), hgxv.enc_num(Fraction(float(mu))),
+                    hgxv.enc_list(draws)))
+                expect.append(("plain", hgxv.enc_lists(sets)))
     key = "cont|" + repr((E, nodes, sorted(I0.items()), T, npseed, case["ops"], case.get("label_kind")))
     ctx.case(key, changes_max >= 2, sample=case)
     ctx.count("contagion_cases")
